@@ -1,4 +1,5 @@
-"""Exhaustive small-alphabet block inputs for corr_model (block kind)."""
+"""Exhaustive small-alphabet block inputs for corr_model (block kind).
+  exh_block.py ALPHABET MAXLEN [CFG [KIND]]     (CFG default core, KIND default block)"""
 import sys, os, itertools
 HERE = os.path.dirname(os.path.abspath(__file__))
 sys.path.insert(0, HERE)
@@ -6,12 +7,14 @@ import corr_model as cm, common
 
 def main():
     alph = eval(sys.argv[1]); maxlen = int(sys.argv[2])
-    side = cm.Side("core")
+    cfg = sys.argv[3] if len(sys.argv) > 3 else "core"
+    kind = sys.argv[4] if len(sys.argv) > 4 else "block"
+    side = cm.Side(cfg)
     docs = ["".join(t) for n in range(maxlen + 1) for t in itertools.product(alph, repeat=n)]
     bad = []
     for i in range(0, len(docs), 20000):
-        bad += cm.compare(side, "block", docs[i:i + 20000])
-    print("exhaustive %r <= %d: %d inputs, %d disagreements" % (alph, maxlen, len(docs), len(bad)))
+        bad += cm.compare(side, kind, docs[i:i + 20000])
+    print("exhaustive %s/%s %r <= %d: %d inputs, %d disagreements" % (kind, cfg, alph, maxlen, len(docs), len(bad)))
     for s, want, got in bad[:5]:
         print("--- input: %r" % s)
         print("    implementation: %s" % cm.decode_canon(want))
